@@ -48,9 +48,10 @@ impl SwiftField for Field90D {
         let mut remaining = input;
 
         // Parse number of transactions (5n)
-        if remaining.len() < 8 {
+        // The number is 5n (one to five digits), so the shortest content is 1 + 3 + 1 characters
+        if remaining.len() < 5 {
             return Err(ParseError::InvalidFormat {
-                message: "Field90D requires at least 8 characters (5n + 3!a)".to_string(),
+                message: "Field90D requires at least 5 characters (5n + 3!a + 15d)".to_string(),
             });
         }
 
@@ -151,9 +152,10 @@ impl SwiftField for Field90C {
         let mut remaining = input;
 
         // Parse number of transactions (5n)
-        if remaining.len() < 8 {
+        // The number is 5n (one to five digits), so the shortest content is 1 + 3 + 1 characters
+        if remaining.len() < 5 {
             return Err(ParseError::InvalidFormat {
-                message: "Field90C requires at least 8 characters (5n + 3!a)".to_string(),
+                message: "Field90C requires at least 5 characters (5n + 3!a + 15d)".to_string(),
             });
         }
 
